@@ -3,6 +3,7 @@ package main
 // SMT-LIB text building: declarations, sorts, terms-as-strings.
 
 import (
+	"regexp"
 	"fmt"
 	"go/types"
 	"sort"
@@ -72,7 +73,15 @@ func sanitize(x string) string {
 // shortType gives a stable, readable name for a Go type.
 func shortType(t types.Type) string {
 	q := func(p *types.Package) string { return p.Name() }
-	return sanitize(types.TypeString(t, q))
+	return sanitize(normBasic(types.TypeString(t, q)))
+}
+
+var reByte = regexp.MustCompile(`\bbyte\b`)
+var reRune = regexp.MustCompile(`\brune\b`)
+
+// normBasic: byte and uint8 (rune and int32) are one type and must share heaps and tags.
+func normBasic(s string) string {
+	return reRune.ReplaceAllString(reByte.ReplaceAllString(s, "uint8"), "int32")
 }
 
 func (s *SMT) declare(name, sort string) string {
